@@ -129,7 +129,7 @@ Example d_default_hyps :
   default_okb dG dH (template true false dG dH) = true /\ default_okb dG dH (template false false dG dH) = true /\
   default_okb dH dG (template true true dG dH) = true /\ default_okb dH dG (template false true dG dH) = true.
 Proof. vm_compute. repeat split; reflexivity. Qed.
-(** with spectator hydrogens written explicitly (eG / eH above) the centre template is outside [default_okb] (they are not
-    in the centre), the full ITS is inside *)
-Example e_default_scope : default_okb eG eH (template true false eG eH) = false /\ default_okb eG eH (template false false eG eH) = true.
-Proof. vm_compute. split; reflexivity. Qed.
+(** spectator hydrogens written explicitly (eG / eH above: two on the carbon, one on the oxygen) are covered as well *)
+Example e_default_scope : default_okb eG eH (template true false eG eH) = true /\ default_okb eG eH (template false false eG eH) = true /\
+  default_okb eH eG (template true true eG eH) = true.
+Proof. vm_compute. repeat split; reflexivity. Qed.
